@@ -15,6 +15,27 @@ class DefInt(VariablePayload):
         super().__init__(a, b, **kwargs)
 
 
+class DefIntOther(VariablePayload):
+    """same field names and the same defaulted fields as DefInt, ANOTHER default value: definitions must not share compiled code"""
+    format_list = ["I", "H"]
+    names = ["a", "b"]
+
+    def __init__(self, a, b=11, **kwargs):
+        super().__init__(a, b, **kwargs)
+
+
+class HookNone(VariablePayload):
+    """a pack rule that gives None a meaning on the wire (unset flag -> False, unset number -> 0)"""
+    format_list = ["?", "I"]
+    names = ["flag", "n"]
+
+    def fix_pack_flag(self, value):
+        return value is not None and value
+
+    def fix_pack_n(self, value):
+        return 0 if value is None else value
+
+
 class DefStr(VariablePayload):
     format_list = ["I", "varlenHutf8"]
     names = ["a", "s"]
